@@ -117,6 +117,8 @@ pub struct Case {
     pub scores: Vec<f32>,
     /// true: `Logits::dense`, false: `Logits::sparse` with permuted ids
     pub dense: bool,
+    /// sparse ids whose first id is 0 and last id is n-1 although the ids are not 0..n
+    pub ends: bool,
     pub isa: u8,
 }
 
@@ -129,7 +131,9 @@ impl Case {
         if self.dense {
             Logits::dense(self.scores.clone())
         } else {
-            Logits::sparse(self.scores.clone(), sparse_ids(self.scores.len()))
+            let n = self.scores.len();
+            let ids = if self.ends { (0..n).map(|i| if i == 0 { 0 } else if i == n - 1 { (n - 1) as u32 } else { (2 * n - i) as u32 }).collect() } else { sparse_ids(n) };
+            Logits::sparse(self.scores.clone(), ids)
         }
     }
 
@@ -140,6 +144,7 @@ impl Case {
             "scores_bits": util::bits_json(&self.scores),
             "scores_text": show_vec(&self.scores),
             "dense": self.dense,
+            "ends": self.ends,
             "isa": self.isa,
             "isa_name": util::ISA_NAMES[self.isa as usize],
         })
@@ -151,6 +156,7 @@ impl Case {
             filters,
             scores: util::bits_from_json(&j["scores_bits"]),
             dense: j["dense"].as_bool()?,
+            ends: j["ends"].as_bool().unwrap_or(false),
             isa: j["isa"].as_u64()? as u8,
         })
     }
@@ -694,8 +700,8 @@ fn run_phase(ph: &Phase, isa: u8, all_samples: &Samples) -> Local {
         for scores in &ph.inputs[lo..hi] {
             let fsets = (ph.filters)(scores.len());
             for filters in fsets {
-                for dense in [true, false] {
-                    let case = Case { filters: filters.clone(), scores: scores.clone(), dense, isa };
+                for (dense, ends) in [(true, false), (false, false), (false, true)] {
+                    let case = Case { filters: filters.clone(), scores: scores.clone(), dense, ends, isa };
                     let out = run_case(&case, &mut l);
                     if c == nchunks / 2 || c == nchunks - 1 {
                         if let Some(out) = out {
@@ -885,7 +891,7 @@ pub fn run(ctx: Ctx) -> ! {
             "chain_alphabet": chain_alphabet().iter().map(|f| f.show()).collect::<Vec<_>>(),
             "chains_len_le2": chains2.len(),
             "chains_len3": chains3.len() - chains2.len(),
-            "id_layouts": ["dense", "sparse ids 100+(n-1-i)"],
+            "id_layouts": ["dense", "sparse ids 100+(n-1-i)", "sparse unordered ids [0, 2n-1, ..., n+1, n-1] (first and last id look dense)"],
             "isa": util::ISA_NAMES,
         },
         "per_phase": per_phase,
